@@ -499,4 +499,10 @@ MUTANTS = [
          replace='                id=next(self._client.id_gen_impl()),\n            ) for method, *params in requests', expect='NOTATION-SHAPE'),
     dict(name='strict-ignored-for-notification-body', file='pjrpc/client/client.py', nth=0, find='            if self.strict and response_text:\n',
          replace='            if response_text is None:\n', expect='INTEROP-TABLE'),
+    dict(name='registry-subclass-filter', file='pjrpc/common/exceptions.py', find='        return type(cls).__errors_mapping__.get(code, default)\n',
+         replace='        found = type(cls).__errors_mapping__.get(code, default)\n        return found if issubclass(found, default) else default\n', expect='REGISTRY'),
+    dict(name='async-batch-completion-order', file='pjrpc/server/dispatcher.py',
+         find='results = await asyncio.gather(*(self._request_handler(req, context) for req in request))',
+         replace='results = [await t for t in asyncio.as_completed([asyncio.ensure_future(self._request_handler(req, context)) for req in request])]',
+         expect='ORDER-MAP'),
 ]
